@@ -11,6 +11,8 @@ import (
 	"time"
 
 	"github.com/IBM/sarama"
+	"github.com/spf13/viper"
+	"go.uber.org/zap"
 
 	"github.com/linkedin/Burrow/core/protocol"
 	"github.com/linkedin/Burrow/core/verifhook"
@@ -43,6 +45,16 @@ func genCluster(g *gen) {
 			g.emit("K init real")
 		} else {
 			g.emit("K init")
+		}
+		if i%10 == 3 {
+			// the module's real Configure: each refresh interval set or left to its default
+			opt := func(vals ...int64) string {
+				if g.chance(1, 2) {
+					return "-"
+				}
+				return strconv.FormatInt(g.pick(vals...), 10)
+			}
+			g.emit("K conf or=%s tr=%s gr=%s", opt(1, 5, 10, 30), opt(1, 60, 120), opt(0, 1, 300))
 		}
 		// every third case drives the module's REAL mainLoop: ticks on the three ticker channels instead of direct calls
 		loopMode := i%3 == 2
@@ -154,6 +166,11 @@ func genCluster(g *gen) {
 			}
 			// the Kafka error code partitions in `pe` are answered with (any non-zero code is an error)
 			pec := g.pick(6, 6, 3, 5, 9, 7, 1, 56, 78, 74, -1)
+			if realMode && i%480 == 1 && c == 0 {
+				// the whole module for real: Configure, Start (connects by itself, fetches once, starts the tickers and the
+				// main loop), one offset tick of the real one-second ticker, Stop
+				g.emit("K start meta=%s pe=%s off=%d pec=%d", meta, pe, 1+c, pec)
+			}
 			if realMode {
 				if g.chance(1, 5) {
 					g.emit("K move %d", 1+g.intn(3))
@@ -396,6 +413,7 @@ func runCluster(r *runner) {
 	}
 	// real mode: a real sarama client on sarama's mock brokers, created on first use and kept for the run
 	var real *verifhook.RealKafka
+	confN := 0
 	realMode, realUnavailable := false, false
 	defer func() {
 		if real != nil {
@@ -436,8 +454,93 @@ func runCluster(r *runner) {
 			continue
 		}
 		f := strings.Split(line, " ")
+		if len(f) > 1 && f[1] == "start" && (real == nil || !realMode) {
+			// no real cluster to connect to in this sandbox: the model is told so
+			r.resolve("K startskipped")
+			r.reply("start=skipped")
+			continue
+		}
 		r.resolve("%s", line)
 		switch f[1] {
+		case "conf":
+			kv := parseKV(f[2:])
+			confN++
+			root := fmt.Sprintf("cluster.kconf%d", confN)
+			viper.Set(root+".class-name", "kafka")
+			viper.Set(root+".servers", []string{"k1:9092"})
+			for key, k := range map[string]string{"or": "offset-refresh", "tr": "topic-refresh", "gr": "groups-reaper-refresh"} {
+				if kv[key] != "-" {
+					viper.Set(root+"."+k, atoi(kv[key]))
+				}
+			}
+			r.reply("%s", guard(func() string {
+				m := verifhook.ConfigureKafkaCluster(&protocol.ApplicationContext{Logger: zap.NewNop()}, "kc", root)
+				a, b, c := m.Settings()
+				return fmt.Sprintf("conf or=%d tr=%d gr=%d", a, b, c)
+			}))
+		case "start":
+			if real == nil || !realMode {
+				// no real cluster to connect to: nothing to run (the model's answer is accepted as is)
+				r.reply("start=skipped")
+				break
+			}
+			kv := parseKV(append(f[2:], "terr=0", "perr=-", "lq=-", "bf=-", "ek=0"))
+			env = parseClEnv(kv)
+			layout, answers := realScript(env)
+			confN++
+			root := fmt.Sprintf("cluster.kstart%d", confN)
+			viper.Set(root+".class-name", "kafka")
+			viper.Set(root+".servers", []string{real.SeedAddr()})
+			viper.Set(root+".offset-refresh", 1)
+			viper.Set(root+".topic-refresh", 3600)
+			// the mock brokers speak the protocol of Kafka 0.10.2 (metadata v2, no ApiVersions exchange)
+			viper.Set("client-profile.kstart.kafka-version", "0.10.2.0")
+			viper.Set("client-profile.kstart.client-id", "burrow-verif")
+			viper.Set(root+".client-profile", "kstart")
+			app2 := &protocol.ApplicationContext{Logger: zap.NewNop(), StorageChannel: make(chan *protocol.StorageRequest, 4096)}
+			r.reply("%s", guard(func() string {
+				real.Script(layout, answers)
+				real.Since()
+				m := verifhook.ConfigureKafkaCluster(app2, "c0", root)
+				if err := m.Start(); err != nil {
+					return "start=err"
+				}
+				take := func(ownFetches int) string {
+					var reqs []*protocol.StorageRequest
+					for len(app2.StorageChannel) > 0 {
+						reqs = append(reqs, <-app2.StorageChannel)
+					}
+					// how many full metadata requests reach the brokers is sarama's business (the production client retries a
+					// listing that contains leaderless partitions, and reads the metadata once when it connects): only
+					// whether the cycle re-read the metadata at all is compared, and for the first cycle not even that
+					refreshes, asked := real.Since()
+					if refreshes > 1 {
+						refreshes = 1
+					}
+					if ownFetches > 0 {
+						refreshes = 1
+					}
+					out := renderCycleOf(refreshes, asked, m, reqs)
+					return strings.ReplaceAll(out[:strings.LastIndex(out, " fm=")], " ", "~")
+				}
+				// Start has fetched once before it returns (the module's own client reads the metadata when it connects:
+				// the brokers see one more full metadata request than the module's refresh)
+				c1 := take(1)
+				// the first tick of the real one-second ticker: wait until the brokers have been asked again and the
+				// cycle's traffic has settled
+				deadline := time.Now().Add(3 * time.Second)
+				for time.Now().Before(deadline) && len(app2.StorageChannel) == 0 && !real.AskedSince() {
+					time.Sleep(5 * time.Millisecond)
+				}
+				time.Sleep(150 * time.Millisecond)
+				c2 := take(0)
+				_ = m.Stop()
+				fm := 0
+				if m.FetchMetadata() {
+					fm = 1
+				}
+				return fmt.Sprintf("start=ok c1=%s c2=%s fm=%d", c1, c2, fm)
+			}))
 		case "move":
 			if cl == nil {
 				r.reply("bad-op")
@@ -473,21 +576,7 @@ func runCluster(r *runner) {
 				cl.SetFetchMetadata(true)
 			}
 			if realMode {
-				layout := map[string]map[int32]int32{}
-				answers := map[int32][]verifhook.BlockAnswer{}
-				for _, t := range env.order {
-					layout[t] = map[int32]int32{}
-					for _, p := range env.parts[t] {
-						layout[t][int32(p.id)] = int32(p.leader)
-						if p.leader >= 0 {
-							a := verifhook.BlockAnswer{Topic: t, Partition: int32(p.id), Offset: env.base*1000 + 10*topicIndex(t) + int64(p.id)}
-							if env.pe[fmt.Sprintf("%s.%d", t, p.id)] {
-								a.Err, a.Code = true, env.pec
-							}
-							answers[int32(p.leader)] = append(answers[int32(p.leader)], a)
-						}
-					}
-				}
+				layout, answers := realScript(env)
 				res := guard(func() string {
 					real.Script(layout, answers)
 					real.Since()
@@ -632,6 +721,27 @@ func runCluster(r *runner) {
 			r.reply("bad-op")
 		}
 	}
+}
+
+// realScript turns a cycle's scripted environment into what the mock cluster is told: leaders per partition, and the
+// blocks each broker answers (exactly the partitions it leads)
+func realScript(env *clEnv) (map[string]map[int32]int32, map[int32][]verifhook.BlockAnswer) {
+	layout := map[string]map[int32]int32{}
+	answers := map[int32][]verifhook.BlockAnswer{}
+	for _, t := range env.order {
+		layout[t] = map[int32]int32{}
+		for _, p := range env.parts[t] {
+			layout[t][int32(p.id)] = int32(p.leader)
+			if p.leader >= 0 {
+				a := verifhook.BlockAnswer{Topic: t, Partition: int32(p.id), Offset: env.base*1000 + 10*topicIndex(t) + int64(p.id)}
+				if env.pe[fmt.Sprintf("%s.%d", t, p.id)] {
+					a.Err, a.Code = true, env.pec
+				}
+				answers[int32(p.leader)] = append(answers[int32(p.leader)], a)
+			}
+		}
+	}
+	return layout, answers
 }
 
 // renderCycle prints what one refresh cycle did: the storage requests it sent and the brokers it asked.
